@@ -937,7 +937,23 @@ func runImportCases(c *checker, work string, rng *rand.Rand, n int) {
 			return
 		}
 		var dep, main strings.Builder
-		dep.WriteString("const string go_package = \"example.com/bebopdep\";\nenum Colour : uint16 {\n\tRed = 1;\n\tBlue = 2;\n}\nstruct Dep {\n")
+		dep.WriteString("const string go_package = \"example.com/bebopdep\";\nenum Colour : uint16 {\n\tRed = 1;\n\tBlue = 2;\n}\n")
+		// constants of the imported file (C15): ordinary ones and the three that are emitted as variables
+		depConsts := map[string]string{"DepCount": "int32 DepCount = 7;", "DepName": "string DepName = \"dep\";"}
+		for _, c := range [][2]string{{"DepCeiling", "float64 DepCeiling = inf;"}, {"DepFloor", "float32 DepFloor = -inf;"}, {"DepUnknown", "float64 DepUnknown = nan;"}, {"DepScale", "float64 DepScale = 1.5;"}} {
+			if rng.Intn(2) == 0 {
+				depConsts[c[0]] = c[1]
+			}
+		}
+		var depConstNames []string
+		for k := range depConsts {
+			depConstNames = append(depConstNames, k)
+		}
+		sort.Strings(depConstNames)
+		for _, k := range depConstNames {
+			dep.WriteString("const " + depConsts[k] + "\n")
+		}
+		dep.WriteString("struct Dep {\n")
 		for k, j := 0, 1+rng.Intn(3); k < j; k++ {
 			fmt.Fprintf(&dep, "\t%s\n", strings.Replace(depFields[rng.Intn(len(depFields))], ";", fmt.Sprint(k)+";", 1))
 		}
@@ -1014,8 +1030,23 @@ func runImportCases(c *checker, work string, rng *rand.Rand, n int) {
 					}
 					deps["example.com/bebopdep"] = dp
 				}
-				if _, errs := c.checkWith("bebopmain", src, deps); len(errs) > 0 {
+				mp, errs := c.checkWith("bebopmain", src, deps)
+				if len(errs) > 0 {
 					fail("C12", "oracle", classifyGoError(errs[0]), "imports", o.String()+" mode="+mname, text, "go/types check of the generated source", "no error", strings.Join(errs[:min(len(errs), 3)], " | "), "accepted schema with an import, generated code does not build")
+					continue
+				}
+				// C15: every constant of the imported file is declared by the package that holds the imported definitions
+				holder := mp
+				if mode == bebop.ImportGenerationModeSeparate {
+					holder = deps["example.com/bebopdep"]
+				}
+				for _, k := range depConstNames {
+					st("C15").Evaluations++
+					st("C15").distinct[hex.EncodeToString(text)+mname+o.String()+k] = struct{}{}
+					st("C15").Distribution["imports/"+mname+"/const"]++
+					if holder == nil || holder.Scope().Lookup(k) == nil {
+						fail("C15", "oracle", "imported-const", "imports", o.String()+" mode="+mname, text, "constant "+k+" of the imported file", "declared in the generated package", "not declared", "a constant of an imported file is missing from the generated code")
+					}
 				}
 			}
 		}
